@@ -290,6 +290,8 @@ func main() {
 		runCLI(ctx, w, *tier, tmp, *outDir, *only)
 	case "plan":
 		runPlan(ctx, w, *tier, *outDir, *only)
+	case "fault":
+		runFault(ctx, w, *tier, tmp, *outDir, *only)
 	default:
 		fmt.Fprintln(os.Stderr, "unknown mode", *mode)
 		os.Exit(2)
